@@ -509,11 +509,16 @@ def judge(sess, iso, m=None, disagree=None, stats=None):
     ops, ctxs = sess["ops"], sess["ctxs"]
     got = run_history(ops, ctxs)
     fresh = [fresh_call(op, ctxs) for op in ops]
-    pristine = iso.ask("c08_sessions", "isolated_apply", [dict(op=op, ctxs=ctxs) for op in ops]) if iso else None
+    pristine = None
+    if iso:
+        try:
+            pristine = iso.ask("c08_sessions", "isolated_apply", [dict(op=op, ctxs=ctxs) for op in ops])
+        except Exception:       # the isolation server is an aid; without it (H) compares with in-process fresh objects
+            pristine = None
     fails = []
     for i, op in enumerate(ops):
         g, f = outcome(got[i]), outcome(fresh[i])
-        p = pristine[i].get("out", ["crash", pristine[i].get("crash")]) if pristine else None
+        p = pristine[i].get("out") if pristine and isinstance(pristine[i], dict) else None   # None: no reference (child died)
         if g != f:
             fails.append(dict(at=i, key=K_HISTORY,
                               what=f"call {i} {show_op(op, ctxs)} on the long-lived CellParser gives {g}, on a fresh CellParser {f}"))
@@ -783,7 +788,10 @@ def run_sessions(ctx, nontrivial):
                 if attempts.get(f["key"], 0) >= 3:
                     continue            # this class was already reproduced and minimised three times in this run
                 attempts[f["key"]] = attempts.get(f["key"], 0) + 1
-                rep = clean.reproduce(prior, sess, f["at"]) if clean else None
+                try:
+                    rep = clean.reproduce(prior, sess, f["at"]) if clean else None
+                except Exception:
+                    rep, clean = None, None
                 if rep is not None:
                     small, key, what = rep
                     at = len(small["ops"]) - 1
